@@ -60,7 +60,7 @@ def run(ctx):
     for i, (recs, alpha) in enumerate(runs):
         write(sd, "small%d.cfg" % i, SMALL % dict(mode="canonical", recs=recs, alpha=alpha, rest="ACTION_CONSTRAINT EmitClass"))
         out = ctx.path("classes%d.ndjson" % i)
-        r = ctx.tlc(sd, "MC_WireSmall", "small%d.cfg" % i, timeout=3000, behaviours_out=out, coverage=(not q and i == 0))
+        r = ctx.tlc(sd, "MC_WireSmall", "small%d.cfg" % i, timeout=3000, behaviours_out=out)
         if r.ok and r.behaviours == 0:
             ctx.broken.append("R1 found no malleable encoding at all in the small model (vacuous)")
         if r.ok and r.coverage_zero:
@@ -69,6 +69,16 @@ def run(ctx):
             m = json.loads(line)
             table["%s @ %s" % ("+".join(sorted(m["classes"])), "nocheck" if m["delta"] < 0 else "delta%d" % m["delta"])] += 1
     ctx.cov(r1_malleable_encodings_by_class_and_sizecheck=dict(sorted(table.items())))
+    # vacuity guard (instead of -coverage, which exhausts the heap on this model under load): every class of the taxonomy
+    # must have been exhibited by at least one accepted non-canonical encoding of the small model
+    seen = set()
+    for k in table:
+        seen.update(k.split(" @ ")[0].split("+"))
+    missing = {"reordered-fields", "duplicated-field", "unknown-field", "non-minimal-varint", "explicit-default",
+               "uint32-high-bits", "bigint-zero-any-sign-byte", "bigint-nil-any-byte", "bigint-padded",
+               "omitted-always-written-field"} - seen
+    if missing and not ctx.broken:
+        ctx.broken.append("vacuity: R1 never exhibited the classes %s" % sorted(missing))
     # ---- R1 with the named deviation (code as it is: hash of the received bytes): TLC must find the counterexample
     write(sd, "defect.cfg", SMALL % dict(mode="received", recs=1, alpha=0, rest=""))
     d = ctx.tlc(sd, "MC_WireSmall", "defect.cfg", timeout=1200, allow=("invariant",), count=False)
